@@ -130,7 +130,7 @@ func C01(tier string) {
 	var chains []gen.Chain
 	cfgs := StdCfgs(false)
 	if tier == "thorough" {
-		chains = chainWorkload(run.SeedV, tier, links, 3000, 500, 8)
+		chains = chainWorkload(run.SeedV, tier, links, 1200, 200, 8)
 		cfgs = StdCfgs(true)
 	} else {
 		chains = chainWorkload(run.SeedV, tier, links, 600, 150, 6)
